@@ -1613,6 +1613,20 @@ pub fn run(id: &str, mode: &str, input: &Input) -> String {
                         bad.push(n);
                     }
                 }
+                // ... and NO format may produce a Level outside 0..=126 ("a Level value is always in 0..=126"):
+                // every number 127..=255 must be rejected, whichever integer type the format hands to the visitor
+                let mut accepted = vec![];
+                for n in 127..=255u16 {
+                    let mut acc = false;
+                    for kind in 0..8u8 {
+                        if (kind == 4 && n > 127) || (kind == 0 && n > 255) { continue; }
+                        let got = guard(|| <Level as serde::Deserialize>::deserialize(IntDe { n: n as i64, kind }).ok().map(|l| l.number()));
+                        if !matches!(got, Some(None)) { acc = true; }
+                    }
+                    let j = guard(|| serde_json::from_str::<Level>(&n.to_string()).ok().map(|l| l.number()));
+                    if !matches!(j, Some(None)) { acc = true; }
+                    if acc { accepted.push(n as u8); }
+                }
                 // whole vectors of computed levels survive the round trip as well
                 let v: Vec<Level> = (0..=126u8).map(|n| Level::new(n).unwrap()).collect();
                 let ok = guard(|| match serde_json::to_string(&v) {
@@ -1622,11 +1636,11 @@ pub fn run(id: &str, mode: &str, input: &Input) -> String {
                 if ok != Some(true) {
                     bad.push(255);
                 }
-                format!("{} => SERDE=on BAD={}", q, numlist(&bad))
+                format!("{} => SERDE=on BAD={} ACCEPTED={}", q, numlist(&bad), numlist(&accepted))
             }
             #[cfg(not(feature = "serde"))]
             {
-                format!("{} => SERDE=off BAD=", q)
+                format!("{} => SERDE=off BAD= ACCEPTED=", q)
             }
         }
     }
